@@ -623,7 +623,7 @@ def desugar_effect_closures(fns_by_path, max_rewrites=40):
             for cb in cj['blocks']:
                 nb = _remap(cb, loff, boff, poff)
                 nb['i'] = cb['i'] + boff
-                nb['inl'] = stack
+                nb['inl'] = stack + tuple(cb.get('inl', ()))      # code a helper brought into the closure keeps its origin
                 tt = nb['term']
                 if tt['k'] == 'return':
                     nb['term'] = {'k': 'goto', 'target': b_fin}
@@ -1459,11 +1459,20 @@ def simp(v):
         if isinstance(inner, tuple) and inner[0] == 'call' and inner[1].endswith('Try>::branch'):
             x = simp(inner[2][0])
             return ('okval', x) if v[1][2] == 'Continue' else ('errval', x)
+        # the same payloads taken by a `match` on the Result / Option itself (a written-out combinator): (X as Ok).0 / (X as Err).0
+        if isinstance(inner, tuple) and inner and inner[0] == 'call' and v[1][2] in ('Ok', 'Some'):
+            return ('okval', simp(inner))
+        if isinstance(inner, tuple) and inner and inner[0] == 'call' and v[1][2] == 'Err':
+            return ('errval', simp(inner))
     if v and v[0] == 'call' and 'from_residual' in v[1]:
         a = simp(v[2][0])
         if a[0] == 'errval':
             return ('errof', a[1])
         return ('errof', a)
+    if v and v[0] == 'agg' and v[1] == 'core::result::Result' and v[2] == 'Err' and len(v[3]) == 1:
+        a = simp(v[3][0])
+        if isinstance(a, tuple) and a and a[0] == 'errval':
+            return ('errof', a[1])      # Err(e) rebuilt from the Err(e) of X: X's error handed on
     return tuple(simp(x) if isinstance(x, tuple) else x for x in v)
 
 
